@@ -5,6 +5,6 @@ CONSTANTS
   MaxItems = 5
   Cap = 99
   D = 16
-  Starts = {0, 1, 2}
+  Starts = {0, 1, 2, 3}
 CONSTRAINT Emit
 CHECK_DEADLOCK FALSE
